@@ -64,8 +64,16 @@ extern int mpt_queue_crop(MPT_STRUCT(queue) *queue, size_t pos, size_t len)
 	
 	/* move data over segments */
 	if (high) {
-		uint8_t *src = ((uint8_t *) queue->base) + len - low;
-		if (low <= post) {
+		uint8_t *src;
+		/* removed range ends inside lower part */
+		if (len < low) {
+			(void) memmove(base, base+len, low - len);
+			base += low - len;
+			post -= low - len;
+			low = len;
+		}
+		src = ((uint8_t *) queue->base) + len - low;
+		if (post <= low) {
 			memcpy(base, src, post);
 			ret = 1;
 		}
